@@ -3,6 +3,7 @@ import PMV.Proofs.PyCoreInst
 import PMV.Proofs.PyCoreMono
 import PMV.Proofs.PyCoreImports
 import PMV.Proofs.PyCoreBindInst
+import PMV.Proofs.PyCoreRename2
 /-
   C01 — With the default options a minified program behaves like the original.
   `Spec.PyCore` gives a first-order core of Python (ints, bools, strings, None; assignment, `if`,
@@ -17,12 +18,17 @@ import PMV.Proofs.PyCoreBindInst
   constant folding (for any oracle) and positional-only conversion *refine* it: unless the
   original run leaves the core (`stuck`), the transformed module behaves identically.
   combine_imports leaves it unchanged too, the observable including the sequence of import events.
-  Partial: renaming, hoisting and annotation removal are decided by the
+  T01.13: renaming the local names of the functions (each function with its own renaming; parameters are copied
+  to their new names at the start of the body, as the renamer does) leaves it unchanged, under a decidable side
+  condition on the renaming (`modOK`: injective on the names of the function, moves only local names, …) that
+  the check evaluates on the renaming the real minifier chose; the model of applying a renaming is compared
+  with `minify(rename_locals only)` text for text.
+  Partial: renaming of globals, hoisting and annotation removal are decided by the
   differential-execution oracle on the real code and by the per-transform theorems of
   C02–C06/C09/C10, not by a PyCore theorem.
 -/
 namespace PMV.C01
-open PMV PMV.Transforms PMV.PyCore PMV.Minify
+open PMV PMV.Transforms PMV.PyCore PMV.Minify PMV.RenameAst
 
 /-- T01.1 -/
 theorem remove_pass_preserves (n : Nat) (m : Module) : run n (travModule removePass m) = run n m :=
@@ -308,5 +314,41 @@ theorem pipeline_partial_under_O (t : Printer.PrecTable) (sp : Token.Spacing) (o
     simp only [transformM, h2, Bool.false_eq_true, if_false, m8, m7, m6, m5, m4, m3, m2, m1c, m1]
   rw [hT]
   exact e9
+
+
+/-- T01.13: renaming the local names of functions preserves the behaviour of every module, for every fuel: printed lines,
+    ending, final globals and import events are the same.  `R` gives each module-level function its renaming and the
+    parameters that are copied (`new = parameter` after the docstring); `modOK` is decidable and is evaluated by the
+    check on the renaming read off the real minifier's output. -/
+theorem local_renaming_preserves (R : RenTable) (m : Module) (h : modOK R m = true) (n : Nat) :
+    run n (renModule R m) = run n m := run_renModule R m h n
+
+theorem local_renaming_preserves_under_O (R : RenTable) (m : Module) (h : modOK R m = true) (n : Nat) :
+    runO n (renModule R m) = runO n m := runO_renModule R m h n
+
+/-- the default pipeline followed by the renaming of locals — `minify()` without literal hoisting and annotation removal —
+    refines the behaviour of every module that stays inside the core -/
+theorem pipeline_then_renaming (t : Printer.PrecTable) (sp : Token.Spacing) (orc : Fold.Oracle) (el : List String)
+    (o : Opts) (ho : CoreOnly o) (R : RenTable) (n : Nat) (m : Module)
+    (hR : modOK R (transformM t sp orc el o m) = true) (hcore : (run n m).ending ≠ "stuck") :
+    run n (renModule R (transformM t sp orc el o m)) = run n m := by
+  rw [local_renaming_preserves R _ hR n]
+  exact pipeline_partial t sp orc el o ho n m hcore
+
+/-! non-vacuity: `def f(a): b = a + 1; print(b); return b` / `print(f(1))` with `a ↦ A` (copied), `b ↦ B` satisfies the
+    condition; mapping `b` onto the parameter `a` does not. -/
+
+def renamingWitness : Module := ⟨[
+  .functionDef false "f" (.mk [] [.mk "a" none] none [] [] none []) [
+    .assign [.name "b" .store] (.binOp (.name "a" .load) .add (.constant (.int 1))),
+    .expr (.call (.name "print" .load) [.name "b" .load] []),
+    .return_ (some (.name "b" .load))] [] none [],
+  .assign [.name "r" .store] (.call (.name "f" .load) [.constant (.int 1)] [])]⟩
+
+def goodRenaming : RenTable := fun _ => (fun x => if x == "a" then "A" else if x == "b" then "B" else x, ["a"])
+def badRenaming : RenTable := fun _ => (fun x => if x == "b" then "a" else x, [])
+
+example : modOK goodRenaming renamingWitness = true := by decide
+example : modOK badRenaming renamingWitness = false := by decide
 
 end PMV.C01
